@@ -50,7 +50,7 @@ def build_corpus(tier, seed):
     i = mi = 0
     classes = ["shape", "occupancy2", "flatten", "occupancy", "metrics", "double-flatten",
                "cascade", "flatten3", "occupancy2", "metrics", "affine", "spacetime", "double-flatten",
-               "flatten3", "plain", "flatten-lookup", "rewrite", "rewrite", "affine-cascade"]
+               "flatten3", "plain", "flatten-lookup", "rewrite", "rewrite", "affine-cascade", "dynflatten2", "dynflatten2"]
     while len(items) < n and i < 10 * n:
         rnd = random.Random("%s-%d-%d" % (ID, seed, i))
         cls = classes[i % len(classes)]
